@@ -659,7 +659,10 @@ func rulesC17(w *World, o *Out) {
 		for _, s := range ex {
 			// refused: len(in) > 0 && !modifiable returns error before execution: the execute call is not reachable from that edge
 			okR := false
-			for _, b := range sn.Blocks {
+			for _, b := range unitBlocks(sn) {
+				if len(b.Instrs) == 0 {
+					continue
+				}
 				iff, ok := b.Instrs[len(b.Instrs)-1].(*ssa.If)
 				if !ok {
 					continue
@@ -670,7 +673,17 @@ func rulesC17(w *World, o *Out) {
 				}
 				_ = f
 				for i, succ := range b.Succs {
-					if ReachFromTop(sn, succ, map[ssa.Instruction]bool{s.Instr: true}, nil) == nil {
+					// an edge refuses when the execution is unreachable from it: in ScheduleNow itself, or -- for a
+					// check extracted into a helper -- when no success return of the helper is reachable from it and
+					// the execution is dominated by the helper's nil error
+					refuses := false
+					if h := b.Parent(); h == sn {
+						refuses = ReachFromTop(sn, succ, map[ssa.Instruction]bool{s.Instr: true}, nil) == nil
+					} else {
+						refuses = ReachFromTop(h, succ, SuccessReturns(h), nil) == nil &&
+							GuardErrNil(s.Instr, func(c Callee) bool { return c.Static == h }) != nil
+					}
+					if refuses {
 						// this edge refuses; it must be the "not modifiable" edge reached under len(in) > 0
 						ff := factOf(iff.Cond, i == 0)
 						if ff.Kind == FFalse {
@@ -710,9 +723,39 @@ func rulesC17(w *World, o *Out) {
 		for _, st := range sts {
 			c := fl.DependsOnCall(st.Val, isCallee("x/evm/keeper", "", "injectSenderIntoPayload"))
 			ok := c != nil
-			d := "SubmitLogicCall.Payload must be the result of injectSenderIntoPayload"
+			d := "SubmitLogicCall.Payload must be the job payload followed by the requester identity (injectSenderIntoPayload, or append(payload, zeroPadBytes(identity, 32)...))"
+			// the same composition written out: append(base, zeroPadBytes(identity, 32)...)
+			var idArg, baseArg ssa.Value
 			if ok {
-				aps, calls := fl.Influence(c.Call.Args[0])
+				idArg, baseArg = c.Call.Args[0], c.Call.Args[1]
+			} else {
+				_, pcalls := fl.Influence(st.Val)
+				for ac := range pcalls {
+					b, isB := ac.Call.Value.(*ssa.Builtin)
+					if !isB || b.Name() != "append" || len(ac.Call.Args) != 2 {
+						continue
+					}
+					inUnit := false
+					for _, u := range unitFuncs(ej) {
+						if ac.Parent() == u {
+							inUnit = true
+						}
+					}
+					pad := fl.DependsOnCall(ac.Call.Args[1], isCallee("x/evm/keeper", "", "zeroPadBytes"))
+					if !inUnit || pad == nil {
+						continue
+					}
+					if k, isK := pad.Call.Args[1].(*ssa.Const); !isK || k.Int64() != 32 {
+						continue
+					}
+					if fl.DependsOnCall(ac.Call.Args[0], isCallee("x/evm/keeper", "", "zeroPadBytes")) != nil {
+						continue // the identity goes after the payload, not before it
+					}
+					idArg, baseArg, ok = pad.Call.Args[0], ac.Call.Args[0], true
+				}
+			}
+			if ok {
+				aps, calls := fl.Influence(idArg)
 				okS := false
 				for a := range aps {
 					if strings.HasSuffix(a.Path, ".SenderAddress") || strings.HasSuffix(a.Path, ".ContractAddress") {
@@ -728,14 +771,14 @@ func rulesC17(w *World, o *Out) {
 						}
 					}
 				}
-				pa, _ := fl.Influence(c.Call.Args[1])
+				pa, _ := fl.Influence(baseArg)
 				okP := false
 				for a := range pa {
 					if strings.HasSuffix(a.Path, ".Payload") || strings.Contains(a.String(), "HexPayload") {
 						okP = true
 					}
 				}
-				if fl.DependsOnCall(c.Call.Args[1], isCallee("x/evm/keeper", "Keeper", "unmarshalJob")) != nil {
+				if fl.DependsOnCall(baseArg, isCallee("x/evm/keeper", "Keeper", "unmarshalJob")) != nil {
 					okP = true
 				}
 				ok = okS && okP && len(trunc) == 0
@@ -744,7 +787,8 @@ func rulesC17(w *World, o *Out) {
 			o.Check("C17.R3", "ExecuteJob|payload = job payload + requester identity", ok, w.Pos(st.Pos()), d)
 		}
 	}
-	if inj := w.MustFunc(o, "x/evm/keeper", "", "injectSenderIntoPayload"); inj != nil {
+	// the composing helper, where the code has one (without it, the rule above demands the composition in ExecuteJob)
+	if inj := w.Func("x/evm/keeper", "", "injectSenderIntoPayload"); inj != nil {
 		okPad := false
 		for _, s := range FindCalls(inj, false, isCallee("x/evm/keeper", "", "zeroPadBytes")) {
 			if c, ok := s.Args()[1].(*ssa.Const); ok && c.Int64() == 32 {
